@@ -2377,7 +2377,7 @@ class Model:
         rhs_by_time = {}
         for time, variables in args.iterrows():
             rhs_by_time[time] = self._get_right_hand_side(
-                args=variables.to_dict(),
+                args={"time": time} | variables.to_dict(),
                 var_names=var_names,
                 cache=cache,
             )
